@@ -97,7 +97,7 @@ def experiment_frame_spec(draw, purpose):
   spec['labels'] = labels
   # cost
   if purpose in ('c07', 'c18'):
-    spec['cost'] = {'scenario': scen, 'spend': draw(st.sampled_from([1, 4, 25, 100])),
+    spec['cost'] = {'scenario': scen, 'spend': draw(st.sampled_from([1, 4, 25, 100, 100, 2 ** 40])),
                     'cool_spend': draw(st.sampled_from([0, 0, 2])),
                     'cnoise': [draw(st.lists(st.integers(-16, 16), min_size=N, max_size=N)) for _ in geos],
                     'cost_lift': draw(st.sampled_from([64, 256, 1024]))}
